@@ -391,7 +391,7 @@ var keywords = map[string]bool{
 	"package": true, "sort": true, "spec": true, "macro": true, "axiom": true, "lemma": true,
 	"ghost": true, "func": true, "iface": true, "property": true, "requires": true, "ensures": true,
 	"invariant": true, "modifies": true, "pure": true, "trusted": true, "aux": true, "inline": true,
-	"nobody": true, "replay": true, "reveal": true, "auto": true, "loopinv": true, "const": true, "import": true, "fresh": true, "opt": true,
+	"nobody": true, "replay": true, "reveal": true, "auto": true, "loopinv": true, "writes": true, "const": true, "import": true, "fresh": true, "opt": true,
 }
 
 type directive struct {
@@ -486,6 +486,7 @@ func ParseFile(path string, pkg string) (*File, error) {
 				return nil, fail(d, err)
 			}
 			sf.Src = src
+			sf.Pkg = f.Pkg
 			f.Funcs = append(f.Funcs, sf)
 			cur = nil
 		case "axiom", "lemma":
@@ -586,6 +587,13 @@ func ParseFile(path string, pkg string) (*File, error) {
 				cur.Replay = d.text
 			case "fresh":
 				cur.Fresh = append(cur.Fresh, strings.Fields(d.text)...)
+			case "writes":
+				cur.HasWrites = true
+				for _, w := range strings.Fields(strings.ReplaceAll(d.text, ",", " ")) {
+					if w != "nothing" {
+						cur.Writes = append(cur.Writes, w)
+					}
+				}
 			case "reveal":
 				cur.Reveal = append(cur.Reveal, strings.Fields(strings.ReplaceAll(d.text, ",", " "))...)
 			case "aux":
